@@ -163,6 +163,16 @@ func c02NormDiag(msg string) string {
 		return "cannot-use"
 	case strings.Contains(msg, "mismatched types"):
 		return "mismatched-types"
+	case strings.Contains(msg, "invalid operation: cannot indirect"):
+		return "invalid-operation:cannot-indirect"
+	case strings.Contains(msg, "can only be compared to nil"):
+		return "invalid-operation:comparison-with-non-comparable"
+	case strings.Contains(msg, "invalid composite literal type"):
+		return "invalid-composite-literal-type"
+	case strings.Contains(msg, "invalid operation"):
+		return "invalid-operation"
+	case strings.Contains(msg, "undefined: cog."):
+		return "undefined:cog-runtime-symbol"
 	case strings.Contains(msg, "invalid recursive type"):
 		return "invalid-recursive-type"
 	case strings.Contains(msg, "duplicate field"):
